@@ -116,4 +116,5 @@ def fam(run):
 
 
 def check(run, replay=None):
-    return simple_family(run, fam(run), replay)
+    import fam_builder
+    return simple_family(run, fam(run), replay, stages=[("declaration_history", fam_builder.FAM)] if run.prop == "C06" else ())
